@@ -193,6 +193,8 @@ class HandlerPolicy(Policy):
             return [(cfg, NodeV(fname[4:], fields, path))]
         if fname == "iter" and len(args) == 1 and isinstance(args[0], ListV):
             return [(cfg, ListV(args[0].items, "iter"))]
+        if fname in ("int", "float", "abs") and len(args) == 1 and isinstance(args[0], Const) and not kwargs:
+            return None  # a conversion of a known constant (`int(any(...))`) is folded by the engine
         if fname in ("any", "all") and len(args) == 1 and isinstance(args[0], ListV) and not kwargs \
                 and all(interp.static_truth(x, cfg) is not None for x in args[0].items):
             return None  # decided by the engine: a fold over values whose truth is known
